@@ -67,6 +67,15 @@ pub(crate) fn cmd_text(c: &Command) -> String {
         Command::MSetNx(p) => format!("MSETNX {}", p.iter().map(|(k, v)| format!("{} {}", k, t(v))).collect::<Vec<_>>().join(" ")),
         Command::BatchSet(p) => format!("BATCHSET {}", p.iter().map(|(k, v)| format!("{} {}", k, t(v))).collect::<Vec<_>>().join(" ")),
         Command::StrLen(k) => format!("STRLEN {}", k),
+        Command::ZAdd { key, pairs, nx, xx, gt, lt, ch } => format!("ZADD {}{}{} {}", key, flags(*nx, *xx, *gt, *lt), if *ch { " CH" } else { "" }, pairs.iter().map(|(s, m)| format!("{} {}", s, t(m))).collect::<Vec<_>>().join(" ")),
+        Command::ZRem(k, ms) => format!("ZREM {} {}", k, ms.iter().map(|v| t(v)).collect::<Vec<_>>().join(" ")),
+        Command::SAdd(k, ms) => format!("SADD {} {}", k, ms.iter().map(|v| t(v)).collect::<Vec<_>>().join(" ")),
+        Command::SRem(k, ms) => format!("SREM {} {}", k, ms.iter().map(|v| t(v)).collect::<Vec<_>>().join(" ")),
+        Command::SPop(k, n) => format!("SPOP {}{}", k, n.map(|n| format!(" {}", n)).unwrap_or_default()),
+        Command::HDel(k, ms) => format!("HDEL {} {}", k, ms.iter().map(|v| t(v)).collect::<Vec<_>>().join(" ")),
+        Command::LPop(k) => format!("LPOP {}", k),
+        Command::RPop(k) => format!("RPOP {}", k),
+        Command::LTrim(k, a, b) => format!("LTRIM {} {} {}", k, a, b),
         Command::LPush(k, vs) => format!("LPUSH {} {}", k, vs.iter().map(|v| t(v)).collect::<Vec<_>>().join(" ")),
         Command::RPopLPush(a, b) => format!("RPOPLPUSH {} {}", a, b),
         Command::LMove { source, dest, wherefrom, whereto } => format!("LMOVE {} {} {} {}", source, dest, wherefrom, whereto),
